@@ -35,6 +35,7 @@ def obligations(ctx: Ctx):
     for n in range(0, 5):
         obs.append(contract_ob(f"{P}.P14.n{n}", f"detect_conflicts non-empty iff conflict(chain), {n} members", (lambda n=n: CC.detect_conflicts_contract(n)), f"contracts.constraints:detect_conflicts_contract({n})", thorough_only=(n >= 4)))
         obs.append(contract_ob(f"{P}.P15.n{n}", f"chain.evaluate valid iff no conflict and every member accepts, {n} members", (lambda n=n: CC.chain_evaluate_contract(n)), f"contracts.constraints:chain_evaluate_contract({n})", thorough_only=(n >= 4)))
+    obs.append(contract_ob(f"{P}.P17", "_parse_atom (parameters of CONST / ENUM / RANGE / LENGTH in chain texts): a bare word without decimal point or exponent letter is an int or the word itself, never a float (INF, NaN are words)", (lambda: CC.PARSE_ATOM), "contracts.constraints:PARSE_ATOM"))
     from contracts import validator_doc as VD
 
     obs.append(contract_ob(f"{P}.P16", "document level: one iteration of the present-fields loop of Validator._validate_section records an Assignment child under its key whatever its value (null, false, empty included)", (lambda: VD.PRESENT_FIELDS_STEP), "contracts.validator_doc:PRESENT_FIELDS_STEP"))
